@@ -33,7 +33,7 @@ CONFIG = {
                 spec=['C08/'], n=(240, 4000)),
     'C09': dict(profiles=['buffers', 'buffers', 'indicators'], fwd_tags=['buf'], bwd=True, o1=False,
                 spec=['C09/'], n=(210, 3000)),
-    'C18': dict(profiles=['malformed', 'malformed', 'mixed'], fwd_tags=[], bwd=False, o1=True, spec=[], n=(400, 6000)),
+    'C18': dict(profiles=['malformed', 'malformed', 'mixed', 'indicators'], fwd_tags=[], bwd=False, o1=True, spec=[], n=(400, 6000)),
 }
 
 
